@@ -85,6 +85,8 @@ def b_bytes(*a, **k):
         x = a[0]
         if isinstance(x, SBuf):
             return x
+        if type(x) is SByteArray:
+            return x.buf
         if isinstance(x, SInt):
             raise Unsupported('bytes(n) with symbolic n')
         if not isinstance(x, (bytes, bytearray, str, int, memoryview)):
